@@ -280,7 +280,7 @@ def rule_no_block_under_lock(ck, N):
                         ck.ob("C40.no-block-under-lock", fi, c, False, "blocking call while holding %s (the other thread needs the lock to make progress)" % N["cond"])
                 else:
                     ck.ob("C40.no-block-under-lock", fi, w, True, "no select/join/recv/sleep inside `with %s` in %s" % (N["cond"], fi.qualname), construct="with-block")
-    ck.floor("C40.no-block-under-lock", nwith, 4, "locked regions")
+    ck.floor("C40.no-block-under-lock", nwith, 2, "locked regions")
 
 
 def _select_calls(run):
@@ -324,6 +324,41 @@ def rule_take_and_clear(ck, N, run):
               construct="cleared-before " + q.unparse(c))
     for node in run.cfg.stmt_nodes(is_clear):
         ck.ob("C40.take-and-clear", run, node.ast, ("@taken", True) in ef[node.id], "the slot is emptied only after its content was taken")
+
+
+def rule_report_back(ck, N, run):
+    """Every iteration that emptied the hand-off slot reports back through call_soon_threadsafe (or leaves the loop by
+    exception/return): the event loop hands off again only from the dispatch it is sent."""
+    cfg = run.cfg
+    slot = "self." + SLOT
+    is_clear = lambda n: n.kind == "stmt" and isinstance(n.ast, (ast.Assign, ast.AnnAssign)) and slot in q.assigned_paths(n.ast) and isinstance(n.ast.value, ast.Constant) and n.ast.value.value is None
+    cst = {n.id for n, _c in call_sites(run, ".call_soon_threadsafe")}
+    main, _polls = _select_calls(run)
+    pm = q.parent_map(run.node)
+    whiles = [a for _n, c in main for a in q.ancestors(pm, c) if isinstance(a, ast.While)]
+    if not whiles:
+        raise AnalysisError("the blocking select is not inside a loop")
+    outer = whiles[-1]
+    heads = [n for n in cfg.nodes if n.kind == "join" and n.ast is outer and n.label == " while"]
+    if not heads:
+        raise AnalysisError("selector loop head not found")
+    head = heads[0]
+    bad = []
+
+    def tr(n, v):
+        if n.id == head.id:
+            if v == "taken":
+                bad.append(n)
+            return "idle"
+        if is_clear(n):
+            return "taken"
+        if n.id in cst:
+            return "reported"
+        return v
+
+    explore(cfg, "idle", tr, lambda t: False, follow_exc=True, exc_effect=True)
+    ck.ob("C40.report-back", run, run.node, not bad, "no path takes the fd sets and loops back to wait without reporting to the event loop (the next hand-off only comes from the dispatch of a report)",
+          construct="taken-without-report")
 
 
 def rule_thread_exit(ck, N, run):
@@ -484,6 +519,34 @@ def rule_dispatch(ck, N, run):
         a1 = q.dotted(c.args[1]) if len(c.args) > 1 else None
         a2 = q.dotted(c.args[2]) if len(c.args) > 2 else None
         ck.ob("C40.dispatch", run, c, a1 in pos0 and a2 in pos1 and a1 != a2, "the readable list (select result 0) and the writable list (result 1) are passed to %s in that order" % disp.name)
+    # error readiness (third select result) is merged into the writable list before the hand-over
+    mains = [n for n in run.cfg.stmt_nodes(lambda n: n.kind == "stmt" and isinstance(n.ast, ast.Assign) and q.is_call(n.ast.value, "select.select")
+                                            and isinstance(n.ast.targets[0], ast.Tuple) and len(n.ast.targets[0].elts) == 3 and any(m_ is n.ast.value for _n, m_ in main))]
+    for mn in mains:
+        e = mn.ast.targets[0].elts
+        if not all(isinstance(x, ast.Name) for x in e):
+            raise AnalysisError("select results are not unpacked into three names")
+        W, X = e[1].id, e[2].id
+        cst_ids = {n.id for n, _c in call_sites(run, ".call_soon_threadsafe")}
+        bad = []
+
+        def tr(n, v, W=W, X=X, mn=mn):
+            if n.id == mn.id:
+                return "raw"
+            if n.kind == "stmt" and isinstance(n.ast, (ast.Assign, ast.AugAssign)) and W in q.assigned_paths(n.ast):
+                names = q.names_in(n.ast.value) | ({W} if isinstance(n.ast, ast.AugAssign) else set())
+                if v == "raw" and {W, X} <= names:
+                    return "merged"
+                if v == "raw" and X not in names and W not in names:
+                    return "none"  # results replaced wholesale (error fallback)
+            if n.id in cst_ids and v == "raw":
+                bad.append(n)
+            return v
+
+        explore(run.cfg, "none", tr, lambda t: False, follow_exc=True, exc_effect=False)
+        ck.ob("C40.dispatch", run, mn.ast, not bad and X != "_",
+              "fds reported in select's error set (%s) are added to the writable list before the results are handed to the event loop (a failed connect is only reported there on Windows)" % X,
+              construct="error-set-merged " + q.normalize_construct(mn.ast, q.local_names(run.node)))
     loops = 0
     for prm, mp, what in ((params[0], N["readers"], "readable"), (params[1], N["writers"], "writable")):
         fors = [n for n in q.walk_body(disp.node) if isinstance(n, ast.For) and q.dotted(n.iter) == prm and isinstance(n.target, ast.Name)]
@@ -659,6 +722,11 @@ def rule_shutdown(ck, N):
     c2 = _order(ck, "C40.shutdown-order", at, fors[0].target.id, N, per_iteration=True)
     ck.floor("C40.shutdown-order", c2.get("flag", 0), 1, "shutdown-flag writes in _atexit_callback")
     ck.floor("C40.shutdown-order", c2.get("iter", 0), 1, "iteration-end states in _atexit_callback")
+    # joins are unbounded: a join with a timeout lets close() return with the thread still running
+    for f_ in (close, at):
+        for c in q.calls(f_.node):
+            if isinstance(c.func, ast.Attribute) and c.func.attr == "join" and (q.dotted(c.func.value) or "").endswith("." + N["thread"]):
+                ck.ob("C40.shutdown-order", f_, c, not c.args and not c.keywords, "the selector thread is joined without a timeout (close returns only once it has stopped)")
     # the atexit send must tolerate a full pipe too
     pm = q.parent_map(at.node)
     for c in q.find_calls(at.node, "%s.%s.send" % (fors[0].target.id, N["waker_w"])):
@@ -675,6 +743,7 @@ def run(ck):
     ck.rule("C40.notify-after-write", "every write that can end the wait (slot := sets, flag := True) is followed by notify() on the same condition on every normal path")
     ck.rule("C40.no-block-under-lock", "no select / join / recv / sleep (directly or one call deep) while the condition is held")
     ck.rule("C40.take-and-clear", "each blocking select uses the lists taken from the slot in this loop iteration and the slot was set to None first")
+    ck.rule("C40.report-back", "each select iteration that took the fd sets reports back via call_soon_threadsafe before waiting again")
     ck.rule("C40.thread-exit", "the selector thread can return, and returns only with the shutdown flag observed true")
     ck.rule("C40.confinement", "code on the selector thread never touches the fd maps or callbacks; the dispatch function is only handed to call_soon_threadsafe; the thread entry is only a Thread target")
     ck.rule("C40.single-handoff", "the hand-off function is called only by the thread starter and by the dispatch function")
@@ -694,6 +763,7 @@ def run(ck):
     rule_no_block_under_lock(ck, N)
     rule_take_and_clear(ck, N, run_)
     rule_thread_exit(ck, N, run_)
+    rule_report_back(ck, N, run_)
     rule_confinement(ck, N, run_)
     rule_start_callers(ck, N)
     rule_snapshot(ck, N)
@@ -790,7 +860,20 @@ def _untry(pred):
     return replace_stmt(lambda st: isinstance(st, ast.Try) and pred(st), lambda st: list(st.body))
 
 
+def _flag_without_lock(root):
+    for i, st in enumerate(root.body):
+        if isinstance(st, ast.With) and "_select_cond" in _src(st.items[0].context_expr):
+            root.body[i] = parse_stmt("self._closing_selector = True")
+            return True
+    return False
+
+
 MUTANTS = [
+    ("seeded C40-adv1: close() sets the shutdown flag without the lock and without notify", _m("SelectorThread.close", _flag_without_lock), ("C40.guarded-by", "C40.notify-after-write", "C40.shutdown-order")),
+    ("bad-fd errors swallowed with `continue` (no report, no further hand-off)", _m("SelectorThread._run_select", replace_stmt(lambda st: isinstance(st, ast.If) and _src(st.test) == "rs", lambda st: [parse_stmt("if rs:\n    ws = []\nelse:\n    continue")])), "C40.report-back"),
+    ("error set of select() no longer merged into the writable fds", _m("SelectorThread._run_select", remove_stmts(lambda st: isinstance(st, ast.Assign) and _src(st) == "ws = ws + xs")), "C40.dispatch"),
+    ("close() joins with a timeout", _m("SelectorThread.close", replace_expr(lambda n: isinstance(n, ast.Call) and _src(n) == "self._thread.join()", lambda n: parse_expr("self._thread.join(1.0)"))), "C40.shutdown-order"),
+    ("add_reader fast path for an already registered fd skips the wake", _m("SelectorThread.add_reader", replace_stmt(lambda st: isinstance(st, ast.Assign) and "_readers[fd]" in _src(st), lambda st: [parse_stmt("if fd in self._readers:\n    self._readers[fd] = functools.partial(callback, *args)\n    return"), st])), "C40.wake-on-change"),
     ("slot taken and cleared outside the lock", _m("SelectorThread._run_select", _move_take_out_of_lock), "C40.guarded-by"),
     ("`if` instead of `while` around wait()", _m("SelectorThread._run_select", _while_to_if), "C40.wait-loop"),
     ("wait loop ignores the shutdown flag", _m("SelectorThread._run_select", replace_expr(lambda n: isinstance(n, ast.BoolOp) and "_closing_selector" in _src(n) and "_select_args" in _src(n), lambda n: n.values[0])), "C40.wait-loop"),
